@@ -56,6 +56,22 @@
 (*       wrong kind: on a cache miss they open (create) the column's       *)
 (*       OTHER family `alt` and bind the column to it for the session.     *)
 (*       Contract and code as shipped: {}.                                 *)
+(*                                                                         *)
+(* A serialization buffer is a SEQUENCE: consume_serialization_buffer      *)
+(* appends the buffer's operations to the batch in the order they were     *)
+(* issued (two writes to one cell in one buffer: the later one wins), at   *)
+(* the point of consumption (two buffers: the order of consumption         *)
+(* decides; direct and buffered operations mix by that rule too).          *)
+(*   BufOrder = "seq"   : contract and code as shipped.                    *)
+(*   BufOrder = "any"   : MUTATION, consume appends the buffer's ops in an *)
+(*                        arbitrary order.                                 *)
+(*   BufOrder = "bycol" : MUTATION, consume groups the ops by column (an   *)
+(*                        unstable sort by column family): the order       *)
+(*                        inside one column is arbitrary.                  *)
+(* Under a mutation the batch also carries `spec`, the sequence the        *)
+(* contract prescribes; the history `log` records that one, so the         *)
+(* declarative invariants judge the store against the contract             *)
+(* (BufferIsSequence states the mechanism).                                *)
 (* With the switches at their contract values TLC proves the invariants    *)
 (* below for the bounded configuration; with a switch at its as-is value   *)
 (* TLC produces exactly the corresponding class of wrong reads.            *)
@@ -67,7 +83,8 @@ CONSTANTS WCols,   \* wide columns; the replay uses W1 (Prefixed) and W2 (Suffix
           Keys, VTypes, Vals, Elems,
           MaxBatches, MaxBufs, MaxIters, MaxOps,
           AtomicCommit, SnapshotScan, Alias,
-          TrackTouch, MisTag
+          TrackTouch, MisTag,
+          BufOrder
 
 Cells == WCols \X Keys \X VTypes
 SetIds == SCols \X Keys
@@ -98,7 +115,7 @@ VARIABLES wide,    \* [Cells -> {0} \cup Vals]; 0 = absent   (physical slots)
 vars == <<wide, sets, batch, sbuf, iters, log, nops, cfmap, awide, asets>>
 fvars == <<cfmap, awide, asets>>
 
-FreeBatch == [st |-> "free", ops |-> <<>>, applied |-> 0]
+FreeBatch == [st |-> "free", ops |-> <<>>, applied |-> 0, spec |-> <<>>]
 FreeBuf == [st |-> "free", ops |-> <<>>]
 FreeIter == [st |-> "free", c |-> "-", key |-> "-", f |-> "-",
              snap |-> {}, must |-> {}, may |-> {}]
@@ -174,7 +191,8 @@ OpenBatch(b) ==
 BatchOp(b, op) ==
     /\ batch[b].st = "open" /\ nops < MaxOps
     /\ LET f == FamOf(op.c, "wb_" \o op.k) IN
-       /\ batch' = [batch EXCEPT ![b].ops = Append(@, Bound(op, f))]
+       /\ batch' = [batch EXCEPT ![b].ops = Append(@, Bound(op, f)),
+                                 ![b].spec = IF BufOrder = "seq" THEN <<>> ELSE Append(@, Bound(op, f))]
        /\ cfmap' = Touch(cfmap, op.c, f)
     /\ nops' = nops + 1
     /\ UNCHANGED <<wide, sets, sbuf, iters, log, awide, asets>>
@@ -203,11 +221,23 @@ BindSeq(m, ops) ==
              r == BindSeq(Touch(m, o.c, f), Tail(ops))
          IN <<(<<Bound(o, f)>> \o r[1]), r[2]>>
 
+(* orders in which a consume may append the ops of one buffer *)
+Permuted(ops, p) == [i \in 1..Len(ops) |-> ops[p[i]]]
+Grouped(ops) == \A i, j, k \in 1..Len(ops) :
+                   (i < j /\ j < k /\ ops[i].c = ops[k].c) => ops[j].c = ops[i].c
+Orders(ops) ==
+    IF BufOrder = "seq" THEN {ops}
+    ELSE LET n == Len(ops)
+             all == {Permuted(ops, p) : p \in {q \in [1..n -> 1..n] : \A i, j \in 1..n : q[i] = q[j] => i = j}}
+         IN IF BufOrder = "any" THEN all ELSE {o \in all : Grouped(o)}
+
 (* WriteBatch::consume_serialization_buffer *)
 Consume(b, s) ==
     /\ batch[b].st = "open" /\ sbuf[s].st = "open"
     /\ LET r == BindSeq(cfmap, sbuf[s].ops) IN
-       /\ batch' = [batch EXCEPT ![b].ops = @ \o r[1]]
+       /\ \E o \in Orders(r[1]) :
+             batch' = [batch EXCEPT ![b].ops = @ \o o,
+                                    ![b].spec = IF BufOrder = "seq" THEN <<>> ELSE @ \o r[1]]
        /\ cfmap' = r[2]
     /\ sbuf' = [sbuf EXCEPT ![s] = FreeBuf]
     /\ UNCHANGED <<wide, sets, iters, log, nops, awide, asets>>
@@ -230,6 +260,8 @@ TrackIters(newsets, newasets) ==
 (* An empty batch leaves no trace (keeps the history, hence the state     *)
 (* space, finite).                                                         *)
 Logged(ops) == IF ops = <<>> THEN log ELSE Append(log, ops)
+(* what the contract says batch b holds *)
+SpecOps(b) == IF BufOrder = "seq" THEN batch[b].ops ELSE batch[b].spec
 
 (* every op lands in the family whose handle the batch holds *)
 InFam(ops, f) == SelectSeq(ops, LAMBDA o : o.f = f)
@@ -243,7 +275,7 @@ Commit(b) ==
     /\ awide' = FoldWide(awide, InFam(batch[b].ops, "alt"))
     /\ asets' = FoldSets(asets, InFam(batch[b].ops, "alt"))
     /\ iters' = TrackIters(sets', asets')
-    /\ log' = Logged(batch[b].ops)
+    /\ log' = Logged(SpecOps(b))
     /\ batch' = [batch EXCEPT ![b] = FreeBatch]
     /\ UNCHANGED <<sbuf, nops, cfmap>>
 
@@ -271,7 +303,7 @@ CommitStep(b) ==
             /\ iters' = TrackIters(sets', asets')
             /\ batch' = [batch EXCEPT ![b].applied = @ + 1]
             /\ UNCHANGED log
-       ELSE /\ log' = Logged(batch[b].ops)
+       ELSE /\ log' = Logged(SpecOps(b))
             /\ batch' = [batch EXCEPT ![b] = FreeBatch]
             /\ UNCHANGED <<wide, sets, iters, awide, asets>>
     /\ UNCHANGED <<sbuf, nops, cfmap>>
@@ -378,6 +410,7 @@ TypeOK ==
     /\ awide \in [Cells -> {0} \cup Vals]
     /\ asets \in [SetIds -> SUBSET Elems]
     /\ TrackTouch \in BOOLEAN /\ MisTag \subseteq Forms
+    /\ BufOrder \in {"seq", "any", "bycol"}
 
 (* point reads: last committed value of exactly that column, key, type *)
 ReadsLastCommitted ==
@@ -397,6 +430,10 @@ IterSound ==
         /\ iters[i].must \subseteq iters[i].snap /\ iters[i].snap \subseteq iters[i].may
         /\ iters[i].must \subseteq ReadSet(iters[i].f, <<iters[i].c, iters[i].key>>)
         /\ ReadSet(iters[i].f, <<iters[i].c, iters[i].key>>) \subseteq iters[i].may
+
+(* a serialization buffer is a sequence: what a batch holds is what the    *)
+(* contract says it holds, in that order                                   *)
+BufferIsSequence == \A b \in 1..MaxBatches : batch[b].ops = SpecOps(b)
 
 (* First touch.  Which families could a session bind column c to?  One per *)
 (* call-site form that can be the first to touch it.                       *)
